@@ -78,9 +78,11 @@ def add_conditions(rng, spec, pressures):
                 return {"attr": "setting", "value": round(v["setting"] * rng.choice([0.5, 0.8, 1.5]), 4)}
             return {"attr": "status", "value": rng.choice(["OPEN", "CLOSED", "ACTIVE"])}
         return {"attr": "status", "value": rng.choice(["OPEN", "CLOSED"])}
-    for t in spec["tanks"]:
+    for ti_, t in enumerate(spec["tanks"]):
         lv = t["init_level"]
         fam = rng.choice(["hysteresis", "two", "conflict", "single", "hysteresis"] + (["setting_conflict"] * 3 if spec["valves"] else []))
+        if ti_ == 0 and spec["valves"] and random.Random(int(lv * 1000) + len(spec["pipes"])).random() < 0.7:
+            fam = "setting_conflict"        # decided without touching the main stream
         ln, kind = rng.choice(links)
         tattr = rng.choice(["level", "level", "pressure", "head"])
         off = t["elevation"] if tattr == "head" else 0.0
@@ -462,9 +464,8 @@ def check(run, replay=None):
             hs_ = spec["options"]["hydraulic_timestep"]
             cand = sorted({(t2 // hs_) * hs_ if t2 % hs_ else t2 - hs_ for (t1, t2) in crossings})
             cand = [T1 for T1 in cand if 0 < T1 < spec["options"]["duration"]]
-            if cand:
-                import pandas as _pd
-                T1 = rng.choice(cand)
+            import pandas as _pd
+            for T1 in cand[:3]:
                 try:
                     wnp = build(spec, wntr)
                     wnp.options.time.duration = T1
@@ -480,6 +481,74 @@ def check(run, replay=None):
                     if len(set(tp)) == len(tp):
                         run.count("paused before a threshold crossing")
                         partial_steps(Hp, Pp, Dp, Sp, tp, "threshold met by a partial step (run paused and continued)", paused_at=T1)
+    # ---- directed: a tank filling through a pipe that a level control closes; the run is paused at the grid time before the crossing and
+    #      continued by a new simulator object: the threshold must still be met by a partial step ----
+    from wntr.network import controls as C_
+    import pandas as _pd2
+    for rep in range(6 if thorough else 3):
+        rr = random.Random(run.seed * 977 + rep)
+        d_t, lv0 = round(rr.uniform(2.5, 4.0), 1), round(rr.uniform(1.5, 2.5), 2)
+        thr_box = [None]
+        hs_ = rr.choice([3600, 1800])
+        len_box = [rr.choice([600.0, 900.0])]
+
+        def mk(with_ctrl=True):
+            thr_u = thr_box[0]
+            w = wntr.network.WaterNetworkModel()
+            w.add_reservoir("R", base_head=60.0)
+            w.add_junction("J1", base_demand=0.002, elevation=5.0)
+            w.add_tank("T", elevation=30.0, init_level=lv0, min_level=0.5, max_level=8.0, diameter=d_t)
+            w.add_pipe("P1", "R", "J1", length=len_box[0], diameter=0.1, roughness=100)
+            w.add_pipe("P2", "J1", "T", length=100.0, diameter=0.25, roughness=120)
+            if with_ctrl:
+                w.add_control("up", C_.Control(C_.ValueCondition(w.get_node("T"), "level", ">", thr_u), C_.ControlAction(w.get_link("P1"), "status", wntr.network.LinkStatus.Closed)))
+            w.options.time.hydraulic_timestep = hs_
+            w.options.time.report_timestep = "ALL"
+            w.options.time.duration = 8 * hs_
+            return w
+        # the threshold is placed inside the third hydraulic step of the uncontrolled trajectory
+        rfree, efree, wfree, _ = simrun.run(wntr, mk(False))
+        if not simrun.converged(rfree, efree, wfree):
+            continue
+        lfree = rfree.node["head"]["T"] - 30.0
+        if 2 * hs_ not in lfree.index or 3 * hs_ not in lfree.index or float(lfree.loc[3 * hs_]) - float(lfree.loc[2 * hs_]) < 0.02:
+            continue
+        thr_u = round(float(lfree.loc[2 * hs_]) + rr.uniform(0.3, 0.7) * (float(lfree.loc[3 * hs_]) - float(lfree.loc[2 * hs_])), 3)
+        thr_box[0] = thr_u
+        w0 = mk()
+        r0, e0, ww0, _ = simrun.run(wntr, w0)
+        if not simrun.converged(r0, e0, ww0):
+            continue
+        lv = r0.node["head"]["T"] - 30.0
+        tms = [int(x) for x in lv.index]
+        cross = [(a_, b_) for a_, b_ in zip(tms, tms[1:]) if float(lv.loc[a_]) <= thr_u < float(lv.loc[b_])]
+        if not cross:
+            continue
+        t1_, t2_ = cross[0]
+        Tp = (t2_ // hs_) * hs_ if t2_ % hs_ else t2_ - hs_
+        for paused in ([None] + ([Tp] if Tp > 0 else [])):
+            w1 = mk()
+            if paused is None:
+                ra_, rb_ = r0, None
+            else:
+                w1.options.time.duration = paused
+                ra_, ea_, wa_, _ = simrun.run(wntr, w1)
+                w1.options.time.duration = 8 * hs_
+                rb_, eb_, wb_, _ = simrun.run(wntr, w1)
+                if not (simrun.converged(ra_, ea_, wa_) and simrun.converged(rb_, eb_, wb_)):
+                    continue
+            Hc = ra_.node["head"]["T"] if rb_ is None else _pd2.concat([ra_.node["head"]["T"], rb_.node["head"]["T"]])
+            Dc = ra_.node["demand"]["T"] if rb_ is None else _pd2.concat([ra_.node["demand"]["T"], rb_.node["demand"]["T"]])
+            Sc = ra_.link["status"]["P1"] if rb_ is None else _pd2.concat([ra_.link["status"]["P1"], rb_.link["status"]["P1"]])
+            tt_ = [int(x) for x in Hc.index]
+            for a_, b_ in zip(tt_, tt_[1:]):
+                if float(Hc.loc[a_]) - 30.0 <= thr_u < float(Hc.loc[b_]) - 30.0 and int(Sc.loc[b_]) == 0 and int(Sc.loc[a_]) != 0:
+                    over, q_ = abs(float(Hc.loc[b_]) - 30.0 - thr_u), float(Dc.loc[a_])
+                    add("(%s <= 2 * %s / (PI * %s ^ 2 / 4) + 1 / 1000000)%%R" % (R(over), R(abs(q_)), R(d_t)),
+                        {"check": "threshold met by a partial step" + (" (run paused and continued)" if paused else ""), "spec": "directed: R -P1- J1 -P2- T, IF T level > %s THEN P1 CLOSED" % thr_u,
+                         "control": {"node": "T", "op": ">", "thr": thr_u, "link": "P1"}, "t1": a_, "t2": b_, "overshoot": over, "tank_flow": q_, "paused_at": paused,
+                         "full_step_change": abs(q_) * (b_ - a_) / (3.141592653589793 * d_t ** 2 / 4), "tank_diameter": d_t, "init_level": lv0, "hydraulic_timestep": hs_}, True)
+                    run.count("directed crossing" + (" after a pause" if paused else ""))
     res_, errors = common.run_prop_cases("C05", HEADER, TACTIC, cases, shard=120, case_timeout=30)
     for e in errors:
         run.tie_broken("correspondence case file failed to compile", e)
